@@ -119,6 +119,26 @@ func (h *counterHistory) findCounterFor(ourKeyID, theirKeyID uint32) *keyPairCou
 	return c
 }
 
+func (h *counterHistory) forgetCountersFor(retired func(*keyPairCounter) bool) {
+	var kept []*keyPairCounter
+	for _, c := range h.counters {
+		if retired(c) {
+			c.wipe()
+		} else {
+			kept = append(kept, c)
+		}
+	}
+	h.counters = kept
+}
+
+func (h *counterHistory) forgetCountersForOurKey(ourKeyID uint32) {
+	h.forgetCountersFor(func(c *keyPairCounter) bool { return c.ourKeyID == ourKeyID })
+}
+
+func (h *counterHistory) forgetCountersForTheirKey(theirKeyID uint32) {
+	h.forgetCountersFor(func(c *keyPairCounter) bool { return c.theirKeyID == theirKeyID })
+}
+
 type keyManagementContext struct {
 	ourKeyID, theirKeyID                        uint32
 	ourCurrentDHKeys, ourPreviousDHKeys         dhKeyPair
@@ -192,6 +212,7 @@ func (c *Conversation) rotateKeys(dataMessage dataMsg) error {
 func (k *keyManagementContext) rotateOurKeys(recipientKeyID uint32, randomness io.Reader) error {
 	if recipientKeyID == k.ourKeyID {
 		k.revealMACKeysForOurPreviousKeyID()
+		k.counterHistory.forgetCountersForOurKey(k.ourKeyID - 1)
 		return k.generateNewDHKeyPair(randomness)
 	}
 	return nil
@@ -205,6 +226,7 @@ func (k *keyManagementContext) revealMACKeysForTheirPreviousKeyID() {
 func (k *keyManagementContext) rotateTheirKey(senderKeyID uint32, pubDHKey *big.Int) {
 	if senderKeyID == k.theirKeyID {
 		k.revealMACKeysForTheirPreviousKeyID()
+		k.counterHistory.forgetCountersForTheirKey(k.theirKeyID - 1)
 
 		k.theirPreviousDHPubKey = k.theirCurrentDHPubKey
 		k.theirCurrentDHPubKey = pubDHKey
